@@ -19,10 +19,8 @@ PARTS = HEAD + consts('LEAD_SIZE', 'INDEX_HEADER_SIZE', 'INDEX_ENTRY_SIZE', 'HEA
     Raw(DIGEST_SPEC + 'impl Package {\n'),
     Fn(PKG, 'verify_digests', impl='impl Package',
        subs=[ret(),
-             ('md5_declared != header_and_content_digest_md5', '!bytes_eq(md5_declared, &header_and_content_digest_md5)', None, R11),
-             ('sha1_declared != header_digest_sha1', '!str_eq(sha1_declared, &header_digest_sha1)', None, R11),
-             ('sha256 != header_digest_sha256', '!str_eq(sha256, &header_digest_sha256)', None, R11),
-             ('payload_digest != payload_digest_val[0]', '!str_eq(&payload_digest, &payload_digest_val[0])', None, R11),
+             (re.compile(r'\b([A-Za-z_]\w*) != ([A-Za-z_]\w*(?:\[\w+\])?)'), r'!veq(&\1, &\2)', None, R11),
+             (re.compile(r'\b([A-Za-z_]\w*) == ([A-Za-z_]\w*(?:\[\w+\])?)'), r'veq(&\1, &\2)', None, R11),
              (re.compile(r'Error::InvalidTagValueEnumVariant\s*\{[^}]*\}'), 'Error::Other', None, 'R4-error-message'),
              ('.expect("Completely unknown payload digest algorithm")', '.unwrap()', None, 'R4-expect-message'),
              ] + ALLOC_RULES,
@@ -30,7 +28,7 @@ PARTS = HEAD + consts('LEAD_SIZE', 'INDEX_HEADER_SIZE', 'INDEX_ENTRY_SIZE', 'HEA
         r is Ok <==> digests_ok(*self),
         r is Err ==> (r->Err_0 is DigestMismatchError || (payload_recorded(*self) && payload_algo(*self) != 8)),
         (payload_recorded(*self) && payload_algo(*self) != 8) ==> r is Err,''',
-       before=[('let md5_declared', 'proof { broadcast use axiom_hex_injective; }\n        ')],
+       prologue='proof { broadcast use axiom_hex_injective; }',
        ),
     Raw('''}
 // vacuity canaries: must FAIL
